@@ -6,7 +6,8 @@
           documented spelling changes). *)
 From Coq Require Import ZArith NArith List Bool.
 From PydoctorVerif Require Import Base.Sexp Base.PyExpr Gen.TablesC15 Model.StrEsc Model.Wrap Spec.PyGrammar Spec.PyLex
-     Model.ExprPrint Proofs.PyGrammarProofs Proofs.PyGrammarFuel Proofs.WrapProofs Proofs.StrEscProofs Proofs.ExprPrintProofs.
+     Spec.PyTokenizer Model.ExprPrint Proofs.PyGrammarProofs Proofs.PyGrammarFuel Proofs.WrapProofs Proofs.StrEscProofs
+     Proofs.TokenizerProofs Proofs.ExprPrintProofs Proofs.DisplayProofs Proofs.ReCallProofs.
 Import ListNotations.
 
 (* Tables.prec_wf, on the precedence table as pydoctor sees it NOW (astor.op_util): for every parent context and every
@@ -184,3 +185,108 @@ Example C15_right_operand_fixed :
   read [TLeaf (LConst (KNum [49%N])); TOp OMinus; TLeaf (LConst (KNum [50%N])); TOp OMinus; TLeaf (LConst (KNum [51%N]))]
   = Some (EBin Sub (EBin Sub (k_num 49) (k_num 50)) (k_num 51)).
 Proof. vm_compute. repeat split. Qed.
+
+(* ---------------------------------------------------------------------------------------------------------------
+   From the displayed TEXT back to the tree.  Spec/PyTokenizer.v is a lexer written from the language reference
+   (whitespace, names and keywords, numbers, single- and triple-quoted str/bytes literals decoded to their value,
+   operators by maximal munch); parse_text = tokenize, then the expression reader of Spec/PyGrammar.v.
+   Guard lexable: names are identifiers that are not keywords, numbers have the shape str() gives them, bytes are
+   bytes, and the tree contains no text delegated to astor (comparison, conditional, lambda, slice, comprehension,
+   f-string, attribute of a non-name: opaque, covered by the ast.parse oracle only). *)
+
+(* When colorize says is_complete -- any linelen, maxlines, linebreakok, any tree of output calls without marker kinds --
+   what it emitted, with the LINEWRAP markers and the newline after each removed, is one of the layouts of the tree:
+   every output call's text once and in order, a comma followed by a space or by a newline and an indentation, a
+   string on one line in single quotes or in triple quotes with raw newlines, parentheses around what
+   _OperatorDelimiter wrapped. *)
+Theorem C15_complete_layout :
+  forall (p : params) (c : cmd),
+    plain_cmd c = true -> c_complete (colorize p c) = true -> flatP c (unwrap (c_nodes (colorize p c))).
+Proof. exact complete_layout. Qed.
+
+(* Every layout text of an expression is lexed into exactly the tokens pp prints: the separators the colouriser
+   writes (' and ', ' or ', 'not ', ', ', ': ', no space around binary and unary operators, '=' and '**' in calls)
+   never merge or split tokens: a--b, a-+b, a**-b, a<<b, a* *b cannot arise, not not a keeps its spaces. *)
+Theorem C15_display_tokens :
+  forall (e : expr) (pc : pctx) (t : text),
+    lexable e = true -> wf_source e = true -> is_starred e = false -> no_one_tuple e = true ->
+    flatP (compile pc e) t -> tokenize t = Some (pp pc e).
+Proof. exact layout_tokens. Qed.
+
+(* C15_read_print as a statement about the displayed text (the text of colorize_inline_pyval, and of any run
+   without limits): parsed as Python it is the source tree, up to the documented spellings. *)
+Theorem C15_display_parses :
+  forall (e : expr) (pc : pctx),
+    good_pc pc -> lexable e = true -> wf_source e = true -> is_starred e = false -> no_one_tuple e = true ->
+    parse_text (flat (compile pc e)) = Some (norm e).
+Proof. exact display_parses. Qed.
+
+(* ... and for every linelen / maxlines / linebreakok setting: whenever is_complete is true, removing the LINEWRAP
+   markers and the newlines that follow them from what is shown and parsing it gives the source tree. *)
+Theorem C15_wrapped_display_parses :
+  forall (e : expr) (pc : pctx) (p : params),
+    good_pc pc -> lexable e = true -> wf_source e = true -> is_starred e = false -> no_one_tuple e = true ->
+    c_complete (colorize p (compile pc e)) = true ->
+    parse_text (unwrap (c_nodes (colorize p (compile pc e)))) = Some (norm e).
+Proof. exact wrapped_display_parses. Qed.
+
+(* f(a, *b, k=c, **d)[x.y, 10] ** -(u or v and not w) - 'it''s' + '\n' * {m: [n, (o, r), {s}], **t, 1.5e-07j: b'\xff'} *)
+Definition c15_text_sample : expr :=
+  EBin Sub
+       (EBin Pow
+             (ESub (ECall (nm 102) [nm 97; EStarred (nm 98)] [(Some [107%N], nm 99); (None, nm 100)])
+                   (ETuple [EAttr (nm 120) [121%N] []; ELeaf (LConst (KNum [49%N; 48%N]))]))
+             (EUn USub (EBool Or [nm 117; EBool And [nm 118; EUn UNot (nm 119)]])))
+       (EBin Mult (ELeaf (LConst (KStr [105; 116; 39; 115; 10]%N)))
+             (EDict [(Some (nm 109), EList [nm 110; ETuple [nm 111; nm 114]; ESet [nm 115]]); (None, nm 116);
+                     (Some (ELeaf (LConst (KNum [49; 46; 53; 101; 45; 48; 55; 106]%N))), ELeaf (LConst (KBytes [255%N])))])).
+
+Example C15_display_parses_nonvacuous :
+  lexable c15_text_sample = true /\ wf_source c15_text_sample = true /\ no_one_tuple c15_text_sample = true /\
+  parse_text (flat (compile PNone c15_text_sample)) = Some (norm c15_text_sample) /\
+  (* wrapped at 7 characters, line breaks allowed: complete, contains markers and a triple-quoted string, still parses *)
+  c_complete (colorize (Params 7 0 true) (compile PNone c15_text_sample)) = true /\
+  existsb is_linewrap (c_nodes (colorize (Params 7 0 true) (compile PNone c15_text_sample))) = true /\
+  parse_text (unwrap (c_nodes (colorize (Params 7 0 true) (compile PNone c15_text_sample)))) = Some (norm c15_text_sample).
+Proof. vm_compute. repeat split. Qed.
+
+(* ---------------------------------------------------------------------------------------------------------------
+   Calls to re.compile (PyvalColorizer._colorize_ast_re), at the envelope level: Model/ExprPrint.re_cmd.  The regex
+   colouriser proper (sre_parse36.parse and _colorize_re_tree) is an oracle: its sequence of _output calls, or "raised". *)
+
+(* It falls back to the ordinary display of the call exactly in these cases: the arguments do not bind to
+   (pattern, flags=0), the bound pattern is not a str/bytes constant, or the regex colouriser raised. *)
+Theorem C15_re_fallback :
+  forall oracle f args kws,
+    (bind_re args kws = None \/
+     (exists pat flags, bind_re args kws = Some (pat, flags) /\ str_pattern pat = None) \/
+     (exists pat flags b s, bind_re args kws = Some (pat, flags) /\ str_pattern pat = Some (b, s) /\ has_nl s = false
+                            /\ oracle = ReRaised)) ->
+    re_cmd oracle f args kws = generic_call f args kws.
+Proof. exact re_fallback. Qed.
+
+(* Otherwise the text is  re.compile( pattern [, flags] ) : the pattern as an ordinary string literal when it contains a
+   newline, else what the regex colouriser wrote; the flags argument printed like any other argument. *)
+Theorem C15_re_envelope_text :
+  forall oracle f args kws pat flags isb raw,
+    bind_re args kws = Some (pat, flags) -> str_pattern pat = Some (isb, raw) ->
+    (has_nl raw = true \/ exists ps, oracle = RePieces ps) ->
+    flat (re_cmd oracle f args kws) =
+    [114; 101; 46; 99; 111; 109; 112; 105; 108; 101; 40]%N
+      ++ (if has_nl raw then flat (CStr isb raw) else match oracle with RePieces ps => pieces_text ps | ReRaised => [] end)
+      ++ match flags with Some fl => [44; 32]%N ++ flat (compile (POther None) fl) | None => [] end
+      ++ [41%N].
+Proof. exact re_envelope_text. Qed.
+
+(* Genuine defect on the unchanged tree (known_findings/C15.json: C15-re-compile-unpack-dropped): nothing else is shown,
+   so a ** argument of a call that binds disappears: re.compile('a', **kw) is displayed  re.compile(r'a') . *)
+Definition re_compile_name : expr := EAttr (EName [114; 101]%N) [99; 111; 109; 112; 105; 108; 101]%N [].
+Theorem C15_re_unpack_dropped_refuted :
+  exists args kws oracle,
+    kws = [(None, nm 107)] /\ args = [ELeaf (LConst (KStr [97%N]))] /\
+    oracle = RePieces [([114%N], NText); ([39%N], NQuote); ([97%N], NText); ([39%N], NQuote)] /\
+    is_re_compile re_compile_name = true /\
+    flat (re_cmd oracle re_compile_name args kws) = [114; 101; 46; 99; 111; 109; 112; 105; 108; 101; 40; 114; 39; 97; 39; 41]%N /\
+    flat (generic_call re_compile_name args kws)
+    = [114; 101; 46; 99; 111; 109; 112; 105; 108; 101; 40; 39; 97; 39; 44; 32; 42; 42; 107; 41]%N.
+Proof. do 3 eexists. vm_compute. repeat split. Qed.
